@@ -97,3 +97,35 @@ pub broadcast proof fn lemma_push_then_pop<A>(s: Seq<A>, a: A)
     assert(s.push(a).subrange(0, s.len() as int) =~= s);
     assert(s.push(a).drop_last() =~= s);
 }
+
+// ---- exact functional reading of bdd_to_dnf: the clauses (as pairs of atom sequences), in the order
+// the traversal emits them
+pub type ClauseView = (Seq<Atom>, Seq<Atom>);
+pub open spec fn conj_view(c: Conjunction) -> ClauseView { (c.positive@, c.negative@) }
+pub open spec fn dnf_view(d: Seq<Conjunction>) -> Seq<ClauseView> { d.map_values(|c: Conjunction| conj_view(c)) }
+pub open spec fn dnf_of(b: Bdd, pos: Seq<Atom>, neg: Seq<Atom>) -> Seq<ClauseView>
+    decreases b
+{
+    match b {
+        Bdd::True => seq![(pos, neg)],
+        Bdd::False => Seq::empty(),
+        Bdd::Node { atom, left, middle, right } =>
+            dnf_of(*middle, pos, neg) + dnf_of(*left, pos.push(atom), neg) + dnf_of(*right, pos, neg.push(atom)),
+    }
+}
+pub broadcast proof fn lemma_dnf_of_leaf(pos: Seq<Atom>, neg: Seq<Atom>)
+    ensures #[trigger] dnf_of(Bdd::True, pos, neg) == seq![(pos, neg)], #[trigger] dnf_of(Bdd::False, pos, neg) == Seq::<ClauseView>::empty() {}
+pub broadcast proof fn lemma_dnf_of_node(atom: Atom, left: Rc<Bdd>, middle: Rc<Bdd>, right: Rc<Bdd>, pos: Seq<Atom>, neg: Seq<Atom>)
+    ensures #[trigger] dnf_of(Bdd::Node { atom, left, middle, right }, pos, neg)
+        == dnf_of(*middle, pos, neg) + dnf_of(*left, pos.push(atom), neg) + dnf_of(*right, pos, neg.push(atom)) {}
+pub broadcast proof fn lemma_dnf_view_push(d: Seq<Conjunction>, c: Conjunction)
+    ensures #[trigger] dnf_view(d.push(c)) == dnf_view(d) + seq![conj_view(c)]
+{
+    assert(dnf_view(d.push(c)) =~= dnf_view(d) + seq![conj_view(c)]);
+}
+pub broadcast proof fn lemma_seq_add_assoc<A>(a: Seq<A>, b: Seq<A>, c: Seq<A>)
+    ensures #[trigger] ((a + b) + c) == a + (b + c), a + Seq::<A>::empty() == a
+{
+    assert(((a + b) + c) =~= a + (b + c));
+    assert(a + Seq::<A>::empty() =~= a);
+}
